@@ -3,7 +3,7 @@ style so that sub-expressions that can raise are bound (`>>=`) in Python's evalu
 import ast
 
 from py2lean_types import (Unsupported, Impure, Ty, TInt, TBool, TStr, TNone, TRange, TErased, TList, TOpt, TTuple,
-                           TDict, TObj, TAbs, TExc, TUnion, TVar, INT, BOOL, STR, NONE, RANGE, ERASED,
+                           TDict, TObj, TAbs, TExc, TUnion, TVar, THet, INT, BOOL, STR, NONE, RANGE, ERASED,
                            resolve, unify, join, coerce, proj, iter_elem)
 
 EXC = {"ValueError": ".valueError", "TypeError": ".typeError", "IndexError": ".indexError",
@@ -166,6 +166,23 @@ class ExprMixin:
         raise Unsupported("unary " + src(e))
 
     def e_BinOp(self, e, env, k):
+        # prefix + [a, b]: a record-like list (homogeneous prefix, fixed tail)
+        if isinstance(e.op, ast.Add) and isinstance(e.right, ast.List) and e.right.elts \
+                and not any(isinstance(x, ast.Starred) for x in e.right.elts):
+            def het(vs):
+                (l, tl), tails = vs[0], vs[1:]
+                tl = resolve(tl)
+                if not isinstance(tl, TList):
+                    raise Unsupported("operator " + src(e))
+                j = tl.elem
+                ok = True
+                for _, t in tails:
+                    j = join(j, t) if j is not None else None
+                if j is not None:
+                    return k("({} ++ [{}])".format(coerce(l, tl, TList(j)), ", ".join(coerce(c, t, j) for c, t in tails)), TList(j))
+                return k("(" + ", ".join([l] + [c for c, _ in tails]) + ")", THet(tl.elem, [t for _, t in tails]))
+            return self.exprs([e.left] + list(e.right.elts), env, het)
+
         def fin(vs):
             (a, ta), (b, tb) = vs
             ta, tb = resolve(ta), resolve(tb)
